@@ -31,8 +31,8 @@ var ahEjectFor = []time.Duration{time.Second, 30 * time.Second, 10 * time.Minute
 
 func TestC06AffinityAfterHistory(t *testing.T) {
 	sub := lab.Sub("affinity-after-history", "rapid, virtual time: strategy in {ip_hash, ip_hash_consistent}, pool 2..10 (one case in twelve: 64/65/66/100/130), 1..4 observed clients (2..4 request variants each); history of 3..25 events: "+
-		"eject(i, 1s|30s|10m), re-admit (time passes beyond the window), advance, add, remove, request of an observed client (one time in three followed by the ejection of the very backend that served it), request of another client, selection of a strategy by the operator (lb.SetStrategy: the case's own again or any of the five; events then run under whatever is selected); then, back under the case's strategy and with the eligible "+
-		"set stable, every observed client sends all its variants twice, interleaved with each other and with other clients, through lb.NextBackend or lb.ServeHTTP(L1), and before one window request in eight the operator re-selects the strategy (the active one again, or another one and back with 0..2 requests of other clients while away; members and ejections untouched, every judged request is sent under the case's strategy); "+
+		"eject(i, 1s|30s|10m), re-admit (time passes beyond the window), advance, add, remove, request of an observed client (one time in three followed by the ejection of the very backend that served it), request of another client, selection of a strategy by the operator (lb.SetStrategy: the case's own again or any of the five; events then run under whatever is selected), a read-only admin / monitoring call (listings, metrics, health; see sub-check affinity); backends named by a drawn scheme (see affinity; removals reorder the pool as well); then, back under the case's strategy and with the eligible "+
+		"set stable, every observed client sends all its variants twice, interleaved with each other and with other clients, through lb.NextBackend or lb.ServeHTTP(L1), before one window request in four 1..2 read-only admin / monitoring calls are made, and before one window request in eight the operator re-selects the strategy (the active one again, or another one and back with 0..2 requests of other clients while away; members and ejections untouched, every judged request is sent under the case's strategy); "+
 		"oracle (window only): one backend per client, every choice an eligible member; non-trivial = >=2 eligible backends in the window and the history changed the eligible set "+
 		"after an observed client had already been served")
 	sub.NontrivialFloor(0.5)
@@ -41,6 +41,7 @@ func TestC06AffinityAfterHistory(t *testing.T) {
 	sub.Floor("membership-changed", 0.3)
 	sub.Floor("observed-then-health-change", 0.5)
 	sub.Floor("strategy-reselected-in-window", 0.4)
+	sub.Floor("listing-in-window-of-unsorted-pool", 0.3)
 	lab.Check(t, sub, 2500, 60000, func(rt *rapid.T) {
 		strategy := rapid.SampledFrom(hashStrategies).Draw(rt, "strategy")
 		via := rapid.SampledFrom([]string{"next", "serve"}).Draw(rt, "via")
@@ -48,6 +49,7 @@ func TestC06AffinityAfterHistory(t *testing.T) {
 		if rapid.IntRange(0, 11).Draw(rt, "large_pool") == 0 {
 			n0 = rapid.SampledFrom([]int{64, 65, 66, 100, 130}).Draw(rt, "n0_large") // around and beyond a machine word of backends
 		}
+		nm := genNaming(rt)
 		nc := rapid.IntRange(1, 4).Draw(rt, "clients")
 		addrs := make([]string, nc)
 		variants := make([][]reqSpec, nc)
@@ -61,15 +63,22 @@ func TestC06AffinityAfterHistory(t *testing.T) {
 		nev := rapid.IntRange(3, 25).Draw(rt, "events")
 		var evs []ahEvent
 		var viol string
-		var nReadmit, nMember, nEligibleWin, nMembersWin, nSwitchHist, nSwitchWin int
+		var nReadmit, nMember, nEligibleWin, nMembersWin, nSwitchHist, nSwitchWin, nObsHist, nObsWin int
+		unsortedWin, listedUnsortedWin := false, false
 		changedAfterObserved := false
 		rapid.SyncTest(rt, func(rt *rapid.T) {
-			p, err := newPool(strategy, n0)
+			p, err := newPoolWith(strategy, n0, poolOpts{Naming: nm})
 			if err != nil {
 				rt.Fatalf("harness: %v", err)
 			}
 			defer p.lb.Stop()
 			until := map[string]time.Time{}
+			// a read-only admin / monitoring call. Backends inside an ejection window are exactly p.ejected
+			// here (sweep() runs after every advance of time), so the call cannot re-admit anything.
+			look := func(k int) {
+				p.observe(k, p.ejected)
+				evs = append(evs, ahEvent{K: "look", D: observerNames[k]})
+			}
 			sweep := func() {
 				now := time.Now()
 				for _, b := range p.lb.VerifBackends() {
@@ -110,7 +119,7 @@ func TestC06AffinityAfterHistory(t *testing.T) {
 						ej = append(ej, i)
 					}
 				}
-				switch k := rapid.SampledFrom([]int{0, 5, 1, 5, 2, 6, 0, 5, 1, 3, 4, 6, 5, 7}).Draw(rt, "ev"); {
+				switch k := rapid.SampledFrom([]int{0, 5, 1, 5, 2, 6, 0, 5, 1, 3, 4, 6, 5, 7, 8}).Draw(rt, "ev"); {
 				case k == 0: // eject
 					i := rapid.IntRange(0, len(p.names)-1).Draw(rt, "i")
 					d := rapid.SampledFrom(ahEjectFor).Draw(rt, "d")
@@ -156,6 +165,9 @@ func TestC06AffinityAfterHistory(t *testing.T) {
 				case k == 6:
 					evs = append(evs, ahEvent{K: "other"})
 					other()
+				case k == 8:
+					look(rapid.SampledFrom(observerTable).Draw(rt, "observer"))
+					nObsHist++
 				case k == 7: // the operator selects a strategy: the case's own (again, or back to it) half of the time, else any of the five
 					name := strategy
 					if rapid.Bool().Draw(rt, "elsewhere") {
@@ -199,6 +211,7 @@ func TestC06AffinityAfterHistory(t *testing.T) {
 				setStrategy(strategy)
 			}
 			nMembersWin, nEligibleWin = len(p.names), len(p.names)-len(p.ejected)
+			unsortedWin = p.unsortedNow()
 			// window: every variant of every observed client twice, in a drawn order, others in between
 			type item struct{ c, v int }
 			var items []item
@@ -213,6 +226,17 @@ func TestC06AffinityAfterHistory(t *testing.T) {
 			for _, it := range items {
 				if rapid.IntRange(0, 2).Draw(rt, "interleave") == 0 {
 					other()
+				}
+				// somebody looks at the balancer (listing, metrics, health): read-only, the eligible set stays as it is
+				if rapid.IntRange(0, 3).Draw(rt, "win_look") == 0 {
+					for j, m := 0, rapid.IntRange(1, 2).Draw(rt, "looks"); j < m; j++ {
+						k := rapid.SampledFrom(observerTable).Draw(rt, "observer")
+						look(k)
+						nObsWin++
+						if isListing(k) && unsortedWin {
+							listedUnsortedWin = true
+						}
+					}
 				}
 				// between two window requests the operator re-selects the strategy: the active one again, or
 				// another one and back (traffic of other clients while away). The eligible set stays as it is,
@@ -238,7 +262,7 @@ func TestC06AffinityAfterHistory(t *testing.T) {
 				if f, ok := first[it.c]; !ok {
 					first[it.c], firstReq[it.c] = name, s
 				} else if f != name {
-					viol = fmt.Sprintf("after the history, with the eligible set stable (members %v, ejected %v): client %q: request %+v went to %s, request %+v went to %s",
+					viol = fmt.Sprintf("after the history, with the eligible set stable (members %v, ejected %v; read-only admin/monitoring calls are the look events of the history): client %q: request %+v went to %s, request %+v went to %s",
 						p.names, keysOf(p.ejected), addrs[it.c], firstReq[it.c], f, s, name)
 					return
 				}
@@ -263,10 +287,23 @@ func TestC06AffinityAfterHistory(t *testing.T) {
 		if nSwitchWin > 0 {
 			labels = append(labels, "strategy-reselected-in-window")
 		}
-		sub.Case(map[string]any{"strategy": strategy, "n0": n0, "clients": addrs, "variants": variants, "events": evs, "via": via},
+		labels = append(labels, "names-"+nm.Scheme)
+		if nObsHist > 0 {
+			labels = append(labels, "observer-in-history")
+		}
+		if nObsWin > 0 {
+			labels = append(labels, "observer-in-window")
+		}
+		if unsortedWin {
+			labels = append(labels, "pool-order-is-not-name-order-in-window")
+		}
+		if listedUnsortedWin {
+			labels = append(labels, "listing-in-window-of-unsorted-pool")
+		}
+		sub.Case(map[string]any{"strategy": strategy, "naming": nm, "n0": n0, "clients": addrs, "variants": variants, "events": evs, "via": via},
 			nEligibleWin >= 2 && changedAfterObserved, labels...)
 		if viol != "" {
-			rt.Fatalf("%s n0=%d via=%s clients=%q history=%+v: %s", strategy, n0, via, addrs, evs, viol)
+			rt.Fatalf("%s", note("affinity-after-history", "%s n0=%d via=%s: %s; clients=%q history=%+v", strategy, n0, via, viol, addrs, evs))
 		}
 	})
 }
